@@ -6,6 +6,7 @@ CONSTANTS
   MethodNames = {"f"}
   SelfKinds = {"pk"}
   BaseNaming = "pos"
+  FixedMemberWithoutSelf = TRUE
   RMutant = "none"
   MaxExpected = 1
   MaxActual = 2
